@@ -724,7 +724,32 @@ def r13_checkers_see_the_policies_the_user_wrote(ctx):
                                        'hands on. ')
 
 
+def r14_an_exclusive_borrow_is_a_use(ctx):
+    from ..tables import enum_switches, switch_edges
+    ctx.rule('C08.R14', 'P5 on every discrimination of the call-graph edge kind (`CallGraphEdgeMetadata`: Move / SharedBorrow / ExclusiveBorrow / HappensBefore): an '
+             'exclusive borrow is at least as much a use of the value as a shared borrow. No `match` / `matches!` in pavexc routes `ExclusiveBorrow` together with '
+             'the ordering-only `HappensBefore` while it routes `SharedBorrow` elsewhere: a checker that walks "the consumers" of a node through such a test '
+             '(the path-parameter checks walk the consumers of the extractor) never examines a component that takes `&mut T`, and accepts what it rejects for `&T`.')
+    n = 0
+    for b in ctx.fb.bodies('pavexc'):
+        if b.is_promoted:
+            continue
+        for bb, t in enum_switches(b):
+            if not strip_generics(t['enum']).endswith('call_graph::core_graph::CallGraphEdgeMetadata'):
+                continue
+            e = switch_edges(t)
+            if not {'SharedBorrow', 'ExclusiveBorrow', 'HappensBefore'} <= set(e):
+                continue
+            n += 1
+            bad = e['ExclusiveBorrow'] == e['HappensBefore'] and e['SharedBorrow'] != e['HappensBefore']
+            ctx.ob('C08.R14', 'edge-kinds|%s|%s' % (b.nid.replace(PX, '').replace('pavexc::', ''), 'x'.join(
+                '+'.join(sorted(v for v in e if e[v] == tg)) for tg in sorted(set(e.values())))), not bad, b.loc(bb),
+                'variants grouped by successor: %s' % sorted(sorted(v for v in e if e[v] == tg) for tg in set(e.values())), nontrivial=bad)
+    ctx.floor('C08.R14', 'discriminations of the edge kind', n, 8)
+
+
 def check(ctx):
+    r14_an_exclusive_borrow_is_a_use(ctx)
     r13_checkers_see_the_policies_the_user_wrote(ctx)
     r12_copy_and_clone_of_references_agree(ctx)
     r11_lookahead_is_consumed(ctx)
